@@ -16,7 +16,7 @@
      statement is kept in the comment above them. *)
 From Coq Require Import List ZArith Bool Arith Lia.
 From SC Require Import Base.Res Base.PyList Inst.Heap Inst.ClassTable Inst.Model Inst.Canon
-  Inst.Abs Inst.SpecHelpers Inst.RefineProofs Inst.CopyProofs Inst.CopyStore Inst.RefineMore Inst.RefineMore2 Inst.RefineMore3 Inst.RefineMore4 Inst.RefineMore5.
+  Inst.Abs Inst.SpecHelpers Inst.RefineProofs Inst.CopyProofs Inst.CopyStore Inst.RefineMore Inst.RefineMore2 Inst.RefineMore3 Inst.RefineMore4 Inst.RefineMore5 Inst.RefineMore6.
 Import ListNotations.
 Open Scope nat_scope.
 
@@ -825,6 +825,99 @@ Proof.
   - exact (reset_top_copy_vs_inplace ct [] l c d k s Hl Hc Hd Hflat Hdnc Hfz Hni Hfa Hpc).
 Qed.
 
+(* ---------------- invalidation for the other in-place helpers (Inst/RefineMore6.v) ---------------- *)
+(* `inval_flat k a` instead of `no_inval k` (see C05_refines_inval_partial) for
+   transform_<a>(f, _inplace=True), reset_<a>(_inplace=True) -- resetting `a` invalidates
+   its dependants too -- and update(_inplace=True, a=v, ...) as a whole, where every keyword
+   that is not MISSING names an attribute with direct dependants (`kw_inval_ok`); the
+   building block is `assign_inval_closed` (store with invalidation: outcome, specification,
+   and the receiver is a well-formed cell again). *)
+Theorem C05_transform_refines_inval_partial : forall ct h0 l a c d k sp s f,
+  nth_error (heap s) l = Some (OInst c d) -> lookup_cls ct c = Some k -> lookup_attr k a = Some sp ->
+  NoDup (map fst d) -> aok (absv (heap s) (VRef l)) = true ->
+  c_frozen k = false -> inval_flat k a -> fail_at s = None ->
+  ty_depth (a_ty sp) < FUEL -> ty_is_collection (a_ty sp) = false ->
+  match a_prepare sp with Some g => scalar_fn g = true | None => True end ->
+  scalar_fn f = true -> vscalar (cur_val a d k) = true ->
+  let h := mkh [] true true VMissing false None None [] (Some f) in
+  let ah := mkah [] true true AMissing false None None [] (Some f) in
+  match run_helper ct l (HTransform a) h s with
+  | (Ok r, s') => r = VRef l /\
+                  spec_helper ct h0 (absv (heap s) (VRef l)) (STransform a) ah = SOk (absv (heap s') (VRef l)) /\
+                  (forall i, i <> l -> nth_error (heap s') i = nth_error (heap s) i)
+  | (Err e, s') => spec_helper ct h0 (absv (heap s) (VRef l)) (STransform a) ah = SErr e /\
+                   (forall i, i <> l -> nth_error (heap s') i = nth_error (heap s) i)
+  end.
+Proof.
+  intros ct h0 l a c d k sp s f Hl Hc Ha Hd Hok Hfz Hflat Hfa Hty Hnc Hp Hf Hcur.
+  exact (transform_scalar_inplace_inval_refines ct h0 l a c d k sp s Hl Hc Ha Hd Hok Hfz Hflat Hfa Hty Hnc Hp f Hf Hcur).
+Qed.
+
+Theorem C05_reset_refines_inval_partial : forall ct h0 l a c d k sp s,
+  nth_error (heap s) l = Some (OInst c d) -> lookup_cls ct c = Some k -> lookup_attr k a = Some sp ->
+  NoDup (map fst d) -> aok (absv (heap s) (VRef l)) = true ->
+  c_frozen k = false -> inval_flat k a -> fail_at s = None ->
+  ty_depth (a_ty sp) < FUEL -> ty_is_collection (a_ty sp) = false ->
+  match a_prepare sp with Some g => scalar_fn g = true | None => True end ->
+  literal_default a k sp ->
+  vscalar (class_default k a) = true \/ class_default k a = VMissing ->
+  let h := mkh [] true true VMissing false None None [] None in
+  let ah := mkah [] true true AMissing false None None [] None in
+  match run_helper ct l (HReset a) h s with
+  | (Ok r, s') => r = VRef l /\
+                  spec_helper ct h0 (absv (heap s) (VRef l)) (SReset a) ah = SOk (absv (heap s') (VRef l)) /\
+                  (forall i, i <> l -> nth_error (heap s') i = nth_error (heap s) i)
+  | (Err e, s') => spec_helper ct h0 (absv (heap s) (VRef l)) (SReset a) ah = SErr e /\
+                   (forall i, i <> l -> nth_error (heap s') i = nth_error (heap s) i)
+  end.
+Proof.
+  intros ct h0 l a c d k sp s Hl Hc Ha Hd Hok Hfz Hflat Hfa Hty Hnc Hp Hlit Hdv.
+  exact (reset_scalar_inplace_inval_refines ct h0 l a c d k sp s Hl Hc Ha Hd Hok Hfz Hflat Hfa Hty Hnc Hp Hlit Hdv).
+Qed.
+
+Theorem C05_update_top_refines_inval_partial : forall ct h0 l c d k s p0 ps,
+  nth_error (heap s) l = Some (OInst c d) -> lookup_cls ct c = Some k ->
+  NoDup (map fst d) -> aok (absv (heap s) (VRef l)) = true ->
+  c_frozen k = false -> fail_at s = None ->
+  Forall (kw_inval_ok k) (p0 :: ps) ->
+  let h := mkh [] true true VMissing false None (Some (p0 :: ps)) [] None in
+  let ah := mkah [] true true AMissing false None (Some (akw (p0 :: ps))) [] None in
+  match run_helper ct l HUpdateTop h s with
+  | (Ok r, s') => r = VRef l /\
+                  spec_helper ct h0 (absv (heap s) (VRef l)) SUpdateTop ah = SOk (absv (heap s') (VRef l)) /\
+                  (forall i, i <> l -> nth_error (heap s') i = nth_error (heap s) i)
+  | (Err e, s') => spec_helper ct h0 (absv (heap s) (VRef l)) SUpdateTop ah = SErr e /\
+                   (forall i, i <> l -> nth_error (heap s') i = nth_error (heap s) i)
+  end.
+Proof.
+  intros ct h0 l c d k s p0 ps Hl Hc Hd Hok Hfz Hfa Hkws.
+  exact (update_top_inplace_inval_refines ct h0 l c k Hc Hfz d s p0 ps Hl Hd Hok Hfa Hkws).
+Qed.
+
+(* non-vacuity: on the class of C05_examples the order of the keywords matters --
+   update(a3=7, a1=5): a3 := 7, then a1 := prepare(5) = 6 resets a3 to None *)
+Example C05_example_update_top_inval :
+  Forall (kw_inval_ok ex_k) [(3, VInt 7); (1, VInt 5)] /\
+  (let '(r, s') := run_helper ex_ct 0 HUpdateTop
+                     (mkh [] true true VMissing false None (Some [(3, VInt 7); (1, VInt 5)]) [] None) ex_state in
+   r = Ok (VRef 0) /\ nth_error (heap s') 0 = Some (OInst 2 [(1, VInt 6); (3, VNone)])) /\
+  spec_helper ex_ct [] (absv (heap ex_state) (VRef 0)) SUpdateTop
+              (mkah [] true true AMissing false None (Some (akw [(3, VInt 7); (1, VInt 5)])) [] None)
+    = SOk (AInst 2 [(1, AInt 6); (3, ANone)]) /\
+  (let '(r, s') := run_helper ex_ct 0 HUpdateTop
+                     (mkh [] true true VMissing false None (Some [(1, VInt 5); (3, VInt 7)]) [] None) ex_state in
+   r = Ok (VRef 0) /\ nth_error (heap s') 0 = Some (OInst 2 [(1, VInt 6); (3, VInt 7)])).
+Proof.
+  split; [|vm_compute; repeat split].
+  constructor; [|constructor; [|constructor]].
+  - split; [vm_compute; reflexivity|]. intros _. cbn [fst].
+    split; [vm_compute; repeat constructor; simpl; intuition discriminate|].
+    split; [vm_compute; intuition|]. split.
+    + intros b Hb. vm_compute in Hb. destruct Hb.
+    + intros sp [<-|[<-|[]]] Hdep; discriminate Hdep.
+  - split; [vm_compute; reflexivity|]. intros _. exact (proj1 (proj2 C05_example_inval)).
+Qed.
+
 Print Assumptions C05_noop_if_false.
 Print Assumptions C05_noop_with_unchanged.
 Print Assumptions C05_noop_update_unchanged.
@@ -868,3 +961,7 @@ Print Assumptions C05_copy_vs_inplace_with_partial.
 Print Assumptions C05_copy_vs_inplace_transform_partial.
 Print Assumptions C05_copy_vs_inplace_reset_partial.
 Print Assumptions C05_copy_vs_inplace_toplevel_partial.
+Print Assumptions C05_transform_refines_inval_partial.
+Print Assumptions C05_reset_refines_inval_partial.
+Print Assumptions C05_update_top_refines_inval_partial.
+Print Assumptions C05_example_update_top_inval.
